@@ -8,6 +8,7 @@ import (
 	"fmt"
 	"go/token"
 	"go/types"
+	"strings"
 
 	"golang.org/x/tools/go/ssa"
 )
@@ -61,6 +62,33 @@ func goUsesValue(g *ssa.Go, w ssa.Value) bool {
 func ruleJoinAll(c *Ctx, rule string, F *ssa.Function, onlyWriter *ssa.Parameter, label string) int {
 	P := c.P
 	n := 0
+	var others []*ssa.Go
+	var joinVars []ssa.Value
+	defer func() {
+		// goroutines that do not write to the writer but call Done on the WaitGroup the writers are
+		// joined through: a Done without its own Add releases Wait before the writers have finished
+		for _, g := range others {
+			for _, jv := range joinVars {
+				if !P.goSignalsWaitGroup(g, jv) {
+					continue
+				}
+				res := P.checkJoin(F, g)
+				name := fmt.Sprintf("%s:join-sharer(go %s)", label, P.FnKey(innermostNamed(P, callTarget(g))))
+				bad := ""
+				for _, pr := range res.Problems {
+					if strings.Contains(pr, "WaitGroup.Add") {
+						bad = pr
+					}
+				}
+				if bad != "" {
+					c.Fail(rule, name, g.Pos(), "refuted", "a goroutine that shares the writers' WaitGroup: "+bad+" (its Done is then counted against a writer's Add, and Wait returns while that writer is still writing)")
+				} else {
+					c.OK(rule, name, g.Pos(), "the goroutine sharing the writers' WaitGroup has its own Add before it is started")
+				}
+				break
+			}
+		}
+	}()
 	for _, g := range goStatements(F) {
 		body := callTarget(g)
 		if body == nil {
@@ -68,13 +96,18 @@ func ruleJoinAll(c *Ctx, rule string, F *ssa.Function, onlyWriter *ssa.Parameter
 			continue
 		}
 		if len(P.writeSites(body)) == 0 {
+			others = append(others, g)
 			continue // not a writer (e.g. the file handler stage)
 		}
 		if onlyWriter != nil && !goUsesValue(g, onlyWriter) {
+			others = append(others, g)
 			continue
 		}
 		n++
 		res := P.checkJoin(F, g)
+		if res.Kind == "waitgroup" && res.JoinVar != nil {
+			joinVars = append(joinVars, res.JoinVar)
+		}
 		name := fmt.Sprintf("%s:join(go %s #%d)", label, P.FnKey(innermostNamed(P, body)), n)
 		if len(res.Problems) == 0 {
 			c.OK(rule, name, g.Pos(), fmt.Sprintf("joined through %s %s: signalled after the last write, waited for on every return path, after the input channel is closed", res.Kind, valueName(res.JoinVar)))
@@ -291,7 +324,7 @@ func derivedFromMsgString(rs recvSite, v ssa.Value) bool {
 }
 
 func checkC11(c *Ctx) {
-	c.Explanation = "Decides the happens-before structure that the property needs: for the message-handling entry points of displayrtcm3 and rtcmfilter, every goroutine that writes to the entry point's writer parameter (J1) signals a join object (deferred close / WaitGroup.Done) only after its last write, (J2) is waited for on every path from its go statement to every return of the entry point, (J3) after its input channel has been closed, (J4) does not delegate writing to a further goroutine, (J5) has its WaitGroup.Add before the go statement; the consumer loop writes each received message synchronously before its next receive and leaves only on the closed channel or a failed write; the pipeline call that produces the messages precedes the close.  Without such a join some schedule loses the tail; with it none can (given C09's fan-out rules, evaluated here too). (R3, continued) once a writer goroutine has been started, and until all of them have been joined, the entry point neither calls a method of the writer nor converts it to another interface."
+	c.Explanation = "Decides the happens-before structure that the property needs: for the message-handling entry points of displayrtcm3 and rtcmfilter, every goroutine that writes to the entry point's writer parameter (J1) signals a join object (deferred close / WaitGroup.Done) only after its last write, (J2) is waited for on every path from its go statement to every return of the entry point, (J3) after its input channel has been closed, (J4) does not delegate writing to a further goroutine, (J5) has its own WaitGroup.Add before the go statement (an Add counts only if it is not used up by other goroutines of the same WaitGroup started in between; goroutines that share the writers' WaitGroup without writing need their own Add too); the consumer loop writes each received message synchronously before its next receive and leaves only on the closed channel or a failed write; the pipeline call that produces the messages precedes the close.  Without such a join some schedule loses the tail; with it none can (given C09's fan-out rules, evaluated here too). (R3, continued) once a writer goroutine has been started, and until all of them have been joined, the entry point neither calls a method of the writer nor converts it to another interface."
 	c.NotDecided = "that the writer's Write is itself synchronous (os.Stdout, bytes.Buffer are; a caller-supplied asynchronous writer is outside the property); scheduler and memory-model semantics."
 	P := c.P
 	for _, app := range []string{"apps/displayrtcm3", "apps/rtcmfilter"} {
